@@ -6,9 +6,3 @@ import SLModel.Lemmas.ISort
 import SLModel.Lemmas.Varint
 import SLModel.Lemmas.Locked
 import SLModel.Props.C26
-import SLModel.Lemmas.TopKBridge
-import SLModel.Lemmas.WandLoop
-import SLModel.Props.C09
-import SLModel.Lemmas.BTop
-import SLModel.Lemmas.SortCmp
-import SLModel.Props.C10
